@@ -40,18 +40,26 @@ type spec struct {
 	RaceTx     int // txs written while truncations run
 	Truncators int
 	Perturb    float64
+	MaxConc    int // store MaxConcurrency (0 = 24); small values make "further apart than MaxConcurrency" cheap to reach
 }
 
 func (sp spec) String() string {
-	return fmt.Sprintf("%s kind=%s ioconc=%d filesize=%d vlogcache=%d embedded=%v committers=%d ntx=%d racetx=%d truncators=%d",
-		sp.Name, sp.Kind, sp.IOConc, sp.FileSize, sp.VLogCache, sp.Embedded, sp.Committers, sp.NTx, sp.RaceTx, sp.Truncators)
+	return fmt.Sprintf("%s kind=%s ioconc=%d maxconc=%d filesize=%d vlogcache=%d embedded=%v committers=%d ntx=%d racetx=%d truncators=%d",
+		sp.Name, sp.Kind, sp.IOConc, sp.maxConc(), sp.FileSize, sp.VLogCache, sp.Embedded, sp.Committers, sp.NTx, sp.RaceTx, sp.Truncators)
+}
+
+func (sp spec) maxConc() int {
+	if sp.MaxConc > 0 {
+		return sp.MaxConc
+	}
+	return 24
 }
 
 func (sp spec) options() *store.Options {
 	o := sth.SmallOpts().
 		WithMaxIOConcurrency(sp.IOConc).WithFileSize(sp.FileSize).
 		WithVLogCacheSize(sp.VLogCache).WithEmbeddedValues(sp.Embedded).
-		WithMaxConcurrency(24).WithMaxActiveTransactions(1000).
+		WithMaxConcurrency(sp.maxConc()).WithMaxActiveTransactions(1000).
 		WithMaxTxEntries(maxEntries).WithMaxKeyLen(maxKeyLen).WithMaxValueLen(1 << 13)
 	o.WithIndexOptions(o.IndexOpts.WithCompactionThld(2).WithFlushThld(40).WithSyncThld(200))
 	return o
@@ -1208,6 +1216,32 @@ func (h *hist) racePhase() {
 	}
 }
 
+// genFat: a tx whose first value is longer than a value-log chunk (so consecutive ones in one value log
+// always lie in different chunks); optionally followed by small / empty values
+func (h *hist) genFat(r *rand.Rand, g int, tail bool) []ledger.Entry {
+	mk := func(n int) ledger.Entry {
+		k := fmt.Sprintf("f%d-%d", g, h.keySeq.Add(1))
+		v := make([]byte, n)
+		copy(v, k)
+		for j := len(k); j < n; j++ {
+			v[j] = byte(r.IntN(256))
+		}
+		return ledger.Entry{Key: []byte(k), Value: v}
+	}
+	es := []ledger.Entry{mk(h.sp.FileSize + 17 + r.IntN(40))}
+	if tail {
+		switch r.IntN(3) {
+		case 0:
+			es = append(es, mk(0))
+		case 1:
+			es = append(es, mk(9), mk(0))
+		}
+	} else if r.IntN(2) == 0 {
+		es = append(es, mk(1+r.IntN(60)))
+	}
+	return es
+}
+
 func (h *hist) onPoint(site string) {
 	if site == "store.precommit.beforeLock" && h.gateArmed.CompareAndSwap(true, false) {
 		close(h.gateReached)
@@ -1220,9 +1254,18 @@ func (h *hist) onPoint(site string) {
 // committed and a truncation up to the last committed tx runs; then the writer commits.
 func (h *hist) gatePhase() {
 	r := fw.NewRand(h.c.Seed, "c14/"+h.sp.Name+"/gate")
-	for round := 0; round < 4; round++ {
+	for round := 0; round < 6; round++ {
+		// rounds 4, 5: the held writer is overtaken by MORE than MaxConcurrency committed txs and the cut lies
+		// between its early values and its late id (further apart than the "max concurrency range")
+		far := round >= 4
+		if far && h.sp.Embedded {
+			break
+		}
 		h.gate, h.gateReached = make(chan struct{}), make(chan struct{})
 		esA := h.genTx(r, 50+round)
+		if far {
+			esA = h.genFat(r, 50+round, false)
+		}
 		resA := make(chan error, 1)
 		h.gateArmed.Store(true)
 		go func() { resA <- h.commitOne(esA) }()
@@ -1238,6 +1281,19 @@ func (h *hist) gatePhase() {
 			return
 		}
 		m := h.sp.IOConc + 1 + r.IntN(4)
+		var farCut uint64
+		if far {
+			// first enough chunk-sized txs to put a chunk boundary between the held values and the tx at the cut
+			// in every value log, then more than MaxConcurrency further txs
+			pre := 2*h.sp.IOConc + 1 + r.IntN(3)
+			for i := 0; i < pre; i++ {
+				if err := h.commitOne(h.genFat(r, 60+round, true)); err != nil {
+					h.c.Note(fmt.Sprintf("[%s] commit while a writer is gated: %v", h.sp.Name, err))
+				}
+			}
+			farCut = h.led.Max() - r.Uint64N(2)
+			m = h.sp.maxConc() + 1 + r.IntN(3)
+		}
 		for i := 0; i < m; i++ {
 			if err := h.commitOne(h.genTx(r, 60+round)); err != nil {
 				h.c.Note(fmt.Sprintf("[%s] commit while a writer is gated: %v", h.sp.Name, err))
@@ -1245,7 +1301,10 @@ func (h *hist) gatePhase() {
 		}
 		cut := h.led.Max()
 		out, mode := "", "truncate-while-gated"
-		if round%2 == 0 {
+		if far {
+			cut = farCut
+		}
+		if round%2 == 0 && !far {
 			out = h.truncate(h.st, cut, fmt.Sprintf("gate/n=%d", cut))
 		}
 		close(h.gate)
@@ -1262,7 +1321,20 @@ func (h *hist) gatePhase() {
 			h.abandoned.Store(true)
 			return
 		}
-		if round%2 == 1 {
+		if far {
+			// the overtaken tx is committed with an id more than MaxConcurrency above the cut
+			mode = "truncate-after-overtaken-commit-beyond-maxconcurrency"
+			idA := h.led.Max()
+			out = h.truncate(h.st, cut, fmt.Sprintf("gate-far/n=%d", cut))
+			if h.abandoned.Load() {
+				return
+			}
+			if idA <= cut+uint64(h.sp.maxConc()) {
+				h.c.Note(fmt.Sprintf("[%s] far gate round: distance %d not beyond MaxConcurrency %d", h.sp.Name, idA-cut, h.sp.maxConc()))
+			} else {
+				h.c.Count("gate_far_rounds", 1)
+			}
+		} else if round%2 == 1 {
 			// the overtaken tx is committed (id cut+1, values placed before those of txs <= cut): only the
 			// forward walk of TruncateUptoTx protects it
 			mode = "truncate-after-overtaken-commit"
